@@ -119,6 +119,7 @@ func checkC18(p *Prog, r *Report) {
 	c18Ranges(p, r)
 	c18IndexTests(p, r)
 	c18CropCode(p, r)
+	c18ParseShape(p, r)
 }
 
 // ---------------------------------------------------------------- R1 tables
